@@ -564,6 +564,8 @@ package parser
 //@ func (*Parser).parseCost
 //@   props C06
 //@   requires ParInv(p)
+//@   ensures [commodity_range] result != nil && result.Amount.Commodity.Symbol != "" ==> PosIn(result.Amount.Commodity.Range.Start, len(p.lexer.input)) && PosIn(result.Amount.Commodity.Range.End, len(p.lexer.input))
+//@   ensures [fresh] result != nil ==> fresh(result)
 //@   ensures [inv] ParInv(p) && PFrame(p) && MuLe(p)
 //@   ensures [lt] old(p.current.Type) != TokenEOF ==> MuLt(p)
 //@   modifies p.current, p.errors, p.defaultYear, p.lexer.pos, p.lexer.column, p.lexer.line, p.lexer.atStart
@@ -571,12 +573,14 @@ package parser
 //@ func (*Parser).parseBalanceAssertion
 //@   props C06
 //@   requires ParInv(p)
+//@   ensures [commodity_range] result != nil && result.Amount.Commodity.Symbol != "" ==> PosIn(result.Amount.Commodity.Range.Start, len(p.lexer.input)) && PosIn(result.Amount.Commodity.Range.End, len(p.lexer.input))
+//@   ensures [fresh] result != nil ==> fresh(result)
 //@   ensures [inv] ParInv(p) && PFrame(p) && MuLe(p)
 //@   ensures [lt] old(p.current.Type) != TokenEOF ==> MuLt(p)
 //@   modifies p.current, p.errors, p.defaultYear, p.lexer.pos, p.lexer.column, p.lexer.line, p.lexer.atStart
 
 // PLine: a posting starts on a line of the input (AST well-formedness that the formatter and the range builders rely on).
-//@ pred PLine(po, n) := po.Range.Start.Line >= 1 && po.Range.Start.Line <= n + 1 && PosIn(po.Account.Range.Start, n) && PosIn(po.Account.Range.End, n) && (po.Amount != nil && po.Amount.Commodity.Symbol != "" ==> PosIn(po.Amount.Commodity.Range.Start, n) && PosIn(po.Amount.Commodity.Range.End, n))
+//@ pred PLine(po, n) := po.Range.Start.Line >= 1 && po.Range.Start.Line <= n + 1 && PosIn(po.Account.Range.Start, n) && PosIn(po.Account.Range.End, n) && (po.Amount != nil && po.Amount.Commodity.Symbol != "" ==> PosIn(po.Amount.Commodity.Range.Start, n) && PosIn(po.Amount.Commodity.Range.End, n)) && (po.Cost != nil && po.Cost.Amount.Commodity.Symbol != "" ==> PosIn(po.Cost.Amount.Commodity.Range.Start, n) && PosIn(po.Cost.Amount.Commodity.Range.End, n)) && (po.BalanceAssertion != nil && po.BalanceAssertion.Amount.Commodity.Symbol != "" ==> PosIn(po.BalanceAssertion.Amount.Commodity.Range.Start, n) && PosIn(po.BalanceAssertion.Amount.Commodity.Range.End, n))
 // DirOK: the account / commodity named by a directive has a range inside the input.
 //@ pred DirOK(d, n) := (typeis(d, "ast.AccountDirective") ==> PosIn(as(d, "ast.AccountDirective").Account.Range.Start, n) && PosIn(as(d, "ast.AccountDirective").Account.Range.End, n)) && (typeis(d, "ast.CommodityDirective") && as(d, "ast.CommodityDirective").Commodity.Symbol != "" ==> PosIn(as(d, "ast.CommodityDirective").Commodity.Range.Start, n) && PosIn(as(d, "ast.CommodityDirective").Commodity.Range.End, n))
 //@ func (*Parser).parsePosting
